@@ -62,7 +62,8 @@ Fixpoint dec_digits (fuel : nat) (n : N) (acc : str) : str :=
   | O => acc
   | S f => let acc' := (48 + n mod 10) :: acc in if n <? 10 then acc' else dec_digits f (n / 10) acc'
   end.
-Definition show_N (n : N) : str := dec_digits 40 n [].
+(* fuel: a number has at most log2 n + 1 decimal digits *)
+Definition show_N (n : N) : str := dec_digits (S (N.to_nat (N.log2 n))) n [].
 
 (** expansion: [None] when a '?'-reference is '*' or absent *)
 Definition expand (ps : list tpiece) (feats : list str) (cate : N) : option str :=
